@@ -162,9 +162,17 @@ impl Topo {
 
     pub fn make_proc(&self, p: &str, rec: bool) -> Box<dyn anysystem::Process> {
         let kind = self.kinds.get(p).cloned().unwrap_or_default();
-        if kind == "py" || kind == "pyd" || kind == "pys" {
+        if kind == "py" || kind == "pyd" || kind == "pys" || kind == "pyr" {
             let toks: Vec<Vec<String>> = self.rule_tokens.iter().filter(|(q, _)| q == p).map(|(_, w)| w.clone()).collect();
-            let class = if kind == "py" { "ScriptProc" } else if kind == "pys" { "ScriptProcShared" } else { "ScriptProcDefault" };
+            let class = if kind == "py" {
+                "ScriptProc"
+            } else if kind == "pys" {
+                "ScriptProcShared"
+            } else if kind == "pyr" {
+                "ScriptProcRandom"
+            } else {
+                "ScriptProcDefault"
+            };
             let f = anysystem::python::PyProcessFactory::new("/verif/harness/py/vscript.py", class);
             Box::new(f.build((rules_json(&toks), rec), 1))
         } else {
@@ -490,7 +498,7 @@ pub fn run() {
                 sc.topo
                     .procs
                     .push((ws[1].to_string(), ws[2].to_string(), ws[3..].contains(&"rec")));
-                for k in ["py", "pyd", "pys", "canon"] {
+                for k in ["py", "pyd", "pys", "pyr", "canon"] {
                     if ws[3..].contains(&k) {
                         sc.topo.kinds.insert(ws[1].to_string(), k.to_string());
                     }
